@@ -360,6 +360,27 @@ def r_temporaries(P, R):
     else:
         R.holds('R-PAIR', mk.qualname,
                 f'one incref per memo entry on each of {n} normal path(s)')
+    # (1b) nothing can reject the record after its reference was taken:
+    # an unreadable record (a complemented node, a negative level) is
+    # refused by an assertion, and the reference taken for it would stay
+    incs = [c for c in au.calls_in(mk.node, 'incref')]
+    if incs:
+        first = min(c.lineno for c in incs)
+        late = [x for x in au.walk_no_defs(mk.node)
+                if isinstance(x, (ast.Raise, ast.Assert))
+                and x.lineno > first]
+        if late:
+            R.violation(
+                'R-PAIR', 'temporaries-raise-after-incref', mk.qualname,
+                'incref',
+                f'`{au.short(late[0], 50)}` (line {late[0].lineno}) can '
+                f'refuse the record after `incref` (line {first}) took '
+                'the reference for it: a file with such a record makes '
+                'load() raise and leaves a count that nobody gives back',
+                unit=mk.unit.rel, line=late[0].lineno)
+        else:
+            R.holds('R-PAIR', mk.qualname, 'the reference for a record is '
+                    'taken after the last check that can refuse it')
     # (2) _load_json: one decref per memo entry on the normal exit
     rel = [lp for lp in au.walk_no_defs(ld.node)
            if isinstance(lp, ast.For) and au.is_name(lp.iter, 'cache')
